@@ -110,25 +110,27 @@ theorem session_line (cc : CharClass) (s : Session) (st : SState) (sc : List (Te
   | unspec _ => trivial
 
 /-- the DEFINITIONAL session: every line is parsed, resolved on the carried symbol table and evaluated by
-    the definitional semantics on the carried definitional state; `ts` are the values of the lines -/
-inductive SpecRun (cc : CharClass) (F : Nat) : RState → SState → List Text → List Tree → Prop where
-  | nil (rs : RState) (st : SState) : SpecRun cc F rs st [] []
-  | cons (rs rs' : RState) (st st' : SState) (src : Text) (rest : List Text) (ast : Block) (r : RBlock) (bc : Bytecode) (ts : List Tree) :
+    the definitional semantics on the carried definitional state; `asts` the parsed lines, `rbs` their resolved trees, the state after the last line, and `ts` the values of the lines -/
+inductive SpecRun (cc : CharClass) (F : Nat) : RState → SState → List Text → List Block → List RBlock → SState → List Tree → Prop where
+  | nil (rs : RState) (st : SState) : SpecRun cc F rs st [] [] [] st []
+  | cons (rs rs' : RState) (st st' stEnd : SState) (src : Text) (rest : List Text) (ast : Block) (asts : List Block) (r : RBlock)
+      (rbs : List RBlock) (bc : Bytecode) (ts : List Tree) :
       parse cc src = .ok ast → SB false ast →
       resolveSs ast { rs with loopDepth := 0, funcDepth := 0 } = .ok (r, rs') → compileR r = .ok bc →
       evalB F r { st with last := .null } = .val () st' →
-      SpecRun cc F rs' st' rest ts → SpecRun cc F rs st (src :: rest) (st'.tree treeDepth [] st'.last :: ts)
+      SpecRun cc F rs' st' rest asts rbs stEnd ts →
+      SpecRun cc F rs st (src :: rest) (ast :: asts) (r :: rbs) stEnd (st'.tree treeDepth [] st'.last :: ts)
 
 /-- A WHOLE SESSION in the control-flow fragment: whatever values the definitional session gives, line by
     line on the carried state, the real session (one retained compiler, one retained machine) gives
     exactly those values, for every large enough instruction budget -/
-theorem session_lines (cc : CharClass) (F : Nat) (rs : RState) (st : SState) (srcs : List Text) (ts : List Tree)
-    (h : SpecRun cc F rs st srcs ts) :
+theorem session_lines (cc : CharClass) (F : Nat) (rs : RState) (st : SState) (srcs : List Text) (asts : List Block) (rbs : List RBlock)
+    (stEnd : SState) (ts : List Tree) (h : SpecRun cc F rs st srcs asts rbs stEnd ts) :
     ∀ (s : Session) (sc : List (Text × Nat)), s.rs = rs → SInv s st sc →
       ∃ n, ∀ k, Session.lines cc (n + k) s srcs = ts.map (fun t => Obs.value t []) := by
   induction h with
   | nil rs st => intro s sc _ _; exact ⟨0, fun k => rfl⟩
-  | cons rs rs' st st' src rest ast r bc ts hp hsb hres hc hev _ ih =>
+  | cons rs rs' st st' stEnd src rest ast asts r rbs bc ts hp hsb hres hc hev _ ih =>
     intro s sc hrs hs
     subst hrs
     have h1 := session_line cc s st sc hs src ast hp hsb r rs' hres bc hc F
